@@ -192,7 +192,7 @@ def run(ctx):
                 continue
             jobs.append((job_cells, (W, H)))
     for k in range(32):
-        jobs.append((job_random, (ctx.seed * 43 + k, 40 if quick else 800)))
+        jobs.append((job_random, (ctx.seed * 43 + k, 40 if quick else 3000)))
     events = []
     with mp.get_context("fork").Pool(16, initializer=core._pool_init, initargs=(None,)) as pool:
         res = [pool.apply_async(f, (a,)) for f, a in jobs]
